@@ -528,6 +528,24 @@ class Interp(Engine):
             raise ProgExc(TypeError, f"unexpected keyword arguments {sorted(kwargs)}")
 
     def invoke(self, func, args, kwargs):
+        cc = self.cur_contract
+        if cc is not None and cc.options.get("traverse_rule") is not None and func.key != self.cur_key:
+            # carriers that declare a traverse rule: swc_utils.traverse is replaced by the higher-order client rule,
+            # the thin wrappers Tree.traverse / Tree.Node.traverse are inlined so that their callbacks reach it
+            if func.key.endswith("swc_utils/base.py:traverse"):
+                from . import traverse_rule
+
+                return traverse_rule.model(self, args, kwargs, self.cur_frame)
+            if func.key.endswith(":Tree.traverse") or func.key.endswith(":Tree.Node.traverse"):
+                fr = Frame(parent=func.frame, globs=func.globs, func=func)
+                self.bind_params(func, args, kwargs, fr)
+                self.inline_stack.append(func.key)
+                saved = self.cur_frame
+                try:
+                    return self.run_body(func, fr)
+                finally:
+                    self.inline_stack.pop()
+                    self.cur_frame = saved
         c = self.registry.get(func.key)
         # the modular rule needs a contract that says what the call returns / may modify; a contract that only
         # constrains its own carrier (no `returns`, no `modifies`) is inlined at call sites (always sound)
